@@ -752,7 +752,7 @@ pub fn run(ctx: &Arc<Ctx>) {
     }
     for a in el12.iter().step_by(64) {
         // exponents incl. zero 64-bit limbs below non-zero ones (a skipped limb loses 64 squarings)
-        for e in [BigUint::zero(), BigUint::one(), BigUint::from(2u32), &n - 2u32, g.below(&(&n - 2u32)), BigUint::one() << 64usize, (BigUint::one() << 128usize) + 1u32, (BigUint::one() << 192usize) + (BigUint::from(7u32) << 64usize), (BigUint::from(0x1234u32) << 192usize) + 15u32] {
+        for e in [BigUint::zero(), BigUint::one(), BigUint::from(2u32), &n - 1u32, &n - 2u32, g.below(&(&n - 2u32)), BigUint::one() << 64usize, (BigUint::one() << 128usize) + 1u32, (BigUint::one() << 192usize) + (BigUint::from(7u32) << 64usize), (BigUint::from(0x1234u32) << 192usize) + 15u32] {
             let mut b = z12.clone();
             b[0] = e;
             cases.push(Case::Fp12 { op: "pow".into(), a: s12(a), b: s12(&b) });
